@@ -52,8 +52,9 @@ type c40Flow struct {
 type c40Case struct {
 	Scripts    [][]c40Flow `json:"scripts"`
 	HookFails  int         `json:"hook_fails"`
-	Level      int         `json:"level"`       // response compression level
-	BatchLimit int         `json:"batch_limit"` // producer batches per response
+	HookPanics bool        `json:"hook_panics,omitempty"` // the failing invocations panic instead of returning an error
+	Level      int         `json:"level"`                 // response compression level
+	BatchLimit int         `json:"batch_limit"`           // producer batches per response
 	// ExtZstd compresses externalised objects. Not generated: the server builds a fresh zstd encoder (GOMAXPROCS
 	// sub-encoders) per externalised batch, which under the race detector costs seconds per call; replay-only.
 	ExtZstd bool `json:"ext_zstd,omitempty"`
@@ -63,7 +64,8 @@ var c40Kinds = []string{"unary", "unary", "unary", "big", "rpc_describe", "healt
 
 func genC40(t *rapid.T) c40Case {
 	c := c40Case{
-		HookFails: rapid.IntRange(0, 5).Draw(t, "hook_fails"),
+		HookFails:  rapid.IntRange(0, 5).Draw(t, "hook_fails"),
+		HookPanics: rapid.IntRange(0, 2).Draw(t, "hook_panics") == 0,
 		// zstd 1-3 only: SetCompressionLevel rejects 5+ ("unknown encoder level"), and a level-4 encoder's 34 MB tables,
 		// re-allocated whenever the (race-mode) sync.Pool drops one, cost seconds of race-detector time per response
 		Level:      []int{1, 1, 2, 3}[rapid.IntRange(0, 3).Draw(t, "level")],
@@ -235,6 +237,9 @@ func newC40Server(c c40Case, hookFails int) *c40Server {
 		s.rec.mu.Unlock()
 		if fail {
 			s.rec.add("hook_fail", string(kind), string(bound))
+			if c.HookPanics {
+				panic("c40: serve-start hook panics on purpose")
+			}
 			return errors.New("c40: serve-start hook fails on purpose")
 		}
 		s.rec.add("hook_ok", string(kind), string(bound))
@@ -255,6 +260,10 @@ func newC40Server(c c40Case, hookFails int) *c40Server {
 	s.hs = hs
 	return s
 }
+
+// c40Patience bounds a round: every request is answered from memory, so a
+// round still running after this long is stuck, not slow.
+const c40Patience = 120 * time.Second
 
 // ---------------------------------------------------------------- client flows
 
@@ -692,7 +701,14 @@ func runC40(c c40Case) (out lib.Outcome) {
 		}(clients[i], c.Scripts[i])
 	}
 	close(start)
-	wg.Wait()
+	allDone := make(chan struct{})
+	go func() { wg.Wait(); close(allDone) }()
+	select {
+	case <-allDone:
+	case <-time.After(c40Patience):
+		out.Violate("C40/requests-never-returned", "after %v some of the %d client goroutines are still waiting for a response (serve-start hook: first %d invocations fail, panicking=%v)", c40Patience, len(c.Scripts), c.HookFails, c.HookPanics)
+		return
+	}
 
 	twinPages, twinHash := c40Twin(c)
 	if twinHash == "" {
@@ -709,6 +725,9 @@ func runC40(c c40Case) (out lib.Outcome) {
 				firstRoutes[o.Flow] = true
 			}
 			switch {
+			case c.HookPanics && strings.Contains(o.Panic, "serve-start hook panics on purpose"):
+				// the operator's hook panicked: a failure of the hook, surfaced its own way
+				hookFailed++
 			case o.Panic != "":
 				what := "other"
 				if strings.Contains(o.Panic, "conflicts with pattern") || strings.Contains(o.Panic, "pattern") {
@@ -805,6 +824,9 @@ func runC40(c c40Case) (out lib.Outcome) {
 	}
 	sort.Strings(fr)
 	out.Label(fmt.Sprintf("goroutines:%d+", len(c.Scripts)/16*16), fmt.Sprintf("hook_fails:%d", c.HookFails))
+	if c.HookPanics && c.HookFails > 0 {
+		out.Label("hook-panics")
+	}
 	for _, k := range fr {
 		out.Label("first:" + k)
 	}
@@ -826,7 +848,7 @@ var propC40 = lib.Prop[c40Case]{
 		"Non-trivial: >=16 goroutines whose first requests cover >=3 routes.",
 	Gen:          genC40,
 	Run:          runC40,
-	Essential:    []string{"16+first-requests-over-3+routes", "first:unary", "first:sticky", "first:landing", "first:prod", "first:big"},
+	Essential:    []string{"hook-panics", "16+first-requests-over-3+routes", "first:unary", "first:sticky", "first:landing", "first:prod", "first:big"},
 	EssentialMin: 15,
 	Assumptions: []string{
 		"schedules are whatever the Go scheduler produces when all goroutines are released at once; nothing is enumerated",
